@@ -2,7 +2,7 @@
    (one market update, any number of strategies and orders); the composite statement over whole runs is established by the metamorphic
    correspondence, not proved. *)
 From Coq Require Import ZArith List Bool.
-From V Require Import Model.Num Model.Status Model.Sim Model.SimLoop Gen.StatusC Proofs.SimIsolationP Proofs.SimTradedP.
+From V Require Import Model.Num Model.Status Model.Sim Model.SimLoop Gen.StatusC Model.SimGuard Proofs.SimIsolationP Proofs.SimTradedP Proofs.SimNamesP.
 Open Scope Z_scope.
 
 (* NON-INTERFERENCE OF THE MATCHER under strategy isolation: what the simulated matching of a market update does to the orders of a strategy
@@ -12,6 +12,25 @@ Theorem C13_matcher_non_interference : forall tb cf b ans st orders, cf_isolatio
   proj_strat st (process_sim_orders tb cf b ans orders) = process_sim_orders tb cf b ans (proj_strat st orders).
 Proof. exact isolation_matching. Qed.
 Print Assumptions C13_matcher_non_interference.
+(* The hypothesis "order names are unique in the market" holds in EVERY reachable state of a run: if the script uses each (market, name) once
+   and only names below the first replacement name (1000 in the scenarios), then after any list of events - placements, delayed executions,
+   replacements creating new orders, removals, matching, closures - the orders of every market carry pairwise different names. *)
+Theorem C13_order_names_unique_in_every_reachable_state : forall tb cf n sc es s m,
+  NoDup (map mk_id (s_markets s)) -> (forall m0, In m0 (s_markets s) -> mk_orders m0 = []) -> 1000 <= s_next_name s ->
+  NoDup (run_keys sc n es) -> Forall (fun k => snd k < 1000) (run_keys sc n es) ->
+  In m (s_markets (fold_left (step tb cf n sc) es s)) -> NoDup (map so_name (mk_orders m)).
+Proof. exact run_names_unique. Qed.
+Print Assumptions C13_order_names_unique_in_every_reachable_state.
+
+(* hence matcher non-interference applies to the matching of every market update of every such run *)
+Theorem C13_non_interference_at_every_update : forall tb cf n sc es s m b ans st,
+  NoDup (map mk_id (s_markets s)) -> (forall m0, In m0 (s_markets s) -> mk_orders m0 = []) -> 1000 <= s_next_name s ->
+  NoDup (run_keys sc n es) -> Forall (fun k => snd k < 1000) (run_keys sc n es) -> cf_isolation cf = true ->
+  In m (s_markets (fold_left (step tb cf n sc) es s)) ->
+  proj_strat st (process_sim_orders tb cf b ans (mk_orders m)) = process_sim_orders tb cf b ans (proj_strat st (mk_orders m)).
+Proof. exact non_interference_at_every_update. Qed.
+Print Assumptions C13_non_interference_at_every_update.
+
 (* its two halves at the level of one strategy's turn *)
 Theorem C13_own_turn_commutes : forall tb cf b st ans live os, NoDup (map so_name os) -> (forall x, In x live -> In x os /\ so_strat x = st) ->
   proj_strat st (match_orders tb cf b ans live os) = match_orders tb cf b ans live (proj_strat st os).
